@@ -24,6 +24,7 @@ _NAME = re.compile(r"\b(" + "|".join(COLS) + r")\b")
 def bases(atom):
     """Frame columns an atom (or any formula text) mentions."""
     text = re.sub(r"'[^']*'|\"[^\"]*\"", "", atom)  # drop string literals
+    text = re.sub(r"\[[^\]]*\]", "", text)  # and level subscripts such as u[p]
     return set(_NAME.findall(text))
 
 
@@ -103,6 +104,11 @@ def design(draw, num_pool=tuple(NUM), cat_pool=tuple(CAT), grp_pool=tuple(GRP), 
         lead = draw(st.sampled_from([None, None, "0", "1"]))
         if lead == "1" and draw(st.booleans()):
             effects = []
+        elif d["groups"] and d["groups"][0]["effects"] and draw(st.booleans()) and \
+                not any(bases(a) & fb for t in d["groups"][0]["effects"] for a in t):
+            # the same effect expression under another grouping factor, usually with another intercept rule
+            effects = [list(t) for t in d["groups"][0]["effects"]]
+            lead = draw(st.sampled_from(["0", None, "1"]))
         else:
             effects = draw(family(epool, 2, 2))
         if any(g["factor"] == factor for g in d["groups"]):
